@@ -304,7 +304,21 @@ func (*Ufs) FidDestroy(sfid *SrvFid) {
 // inRoot reports whether the host path p, taken lexically, is the exported
 // root or lies below it.
 func (ufs *Ufs) inRoot(p string) bool {
-	rel, err := filepath.Rel(filepath.Join("/", ufs.Root), filepath.Join("/", p))
+	// a relative Root (".", "export") is relative to the working directory,
+	// and so are the paths built from it; an empty Root exports "/"
+	root := ufs.Root
+	if root == "" {
+		root = "/"
+	}
+	root, err := filepath.Abs(root)
+	if err != nil {
+		return false
+	}
+	abs, err := filepath.Abs(p)
+	if err != nil {
+		return false
+	}
+	rel, err := filepath.Rel(root, abs)
 	return err == nil && rel != ".." && !strings.HasPrefix(rel, "../")
 }
 
